@@ -175,13 +175,26 @@ func judge(t pbt.TB, ld *loaded, c Case) {
 		}
 	}
 	if j < 0 {
-		travs, final, unspec := model.Eval(ld.g, steps)
+		travs, final, unspec, subsetOnly := model.EvalX(ld.g, steps)
 		if unspec != "" {
 			pbt.Class(t, "skip:"+firstWords(unspec))
 			return
 		}
 		want := gripx.ExpectedRows(travs, final)
 		nontrivial(len(want))
+		if subsetOnly {
+			// an unwind() of a missing/empty/non-list value occurred whose result nobody
+			// read: the row multiplicity is open, the rows themselves are not
+			pbt.Class(t, "judged:subset-after-open-unwind")
+			ok := gripx.SubMultiset(out.Rows, want)
+			if final == model.TCount {
+				ok = len(out.Raw) == 1 && len(travs) == 1 && int(out.Raw[0].GetCount()) <= travs[0].Count
+			}
+			if !ok {
+				pbt.Discrepancy(t, c, "rows-after-open-unwind:"+opsSig(steps), "%s: rows are not among those the steps can produce: %s", model.TravString(steps), gripx.DiffMultiset(out.Rows, want))
+			}
+			return
+		}
 		pbt.Class(t, "judged:equality")
 		if d := gripx.DiffMultiset(out.Rows, want); d != "" {
 			pbt.Discrepancy(t, c, "rows:"+opsSig(steps), "%s: %s", model.TravString(steps), d)
